@@ -1,6 +1,7 @@
 import M3d.Gen.Kernels
 import M3d.Model.DualContour
 import Mathlib.Tactic.Ring
+import Mathlib.Algebra.Order.Field.Basic
 import Mathlib.Tactic.Push
 import Mathlib.Tactic.NormNum
 import Mathlib.Tactic.Positivity
@@ -133,5 +134,73 @@ theorem edgeCorners_eq (d : model3d.dcCubeLayout α) (hx : 1 ≤ d.Xs.length) (h
           ((e % layerEdges d.Xs.length d.Ys.length - (xCount d.Xs.length d.Ys.length + yCount d.Xs.length d.Ys.length) : Nat) : Int) :=
         (Nat.cast_sub hge2).symm
       simp only [hB, if_false, hs, tdiv_cast, tmod_cast, edgeCornersC, succ_cast, cornerIdx_eq]
+
+/-! ### `CubeMinMax`: the box `Clip` clamps a vertex into is the bounding box of the cube's eight corners
+
+`populateCubes` clips the QEF solution with `p.Max(min + margin).Min(max - margin)` where `min, max =
+layout.CubeMinMax(c)`.  Against the REGENERATED `CubeMinMax` (eight unrolled `Min`/`Max` steps over
+`CubeCorners(c)`): for every layout — whatever the `Corners` array holds — the result contains the stored
+coordinate of each of the cube's eight corners, component by component.  With `dc_clip_in_cell` the clipped
+vertex lies in that box shrunk by the margin; a `CubeMinMax` that looked at fewer corners, or at the corners
+of another cube, is not provably such a box and breaks this file. -/
+section MinMax
+open M3d.GenPrelude
+variable {K : Type} [Field K] [LinearOrder K] [IsStrictOrderedRing K]
+
+theorem mn_le_left (a b : K) : mn a b ≤ a := by unfold mn; split <;> [exact le_of_lt ‹_›; exact le_refl _]
+theorem mn_le_right (a b : K) : mn a b ≤ b := by unfold mn; split <;> [exact le_refl _; exact not_lt.1 ‹_›]
+theorem le_mx_left (a b : K) : a ≤ mx a b := by unfold mx; split <;> [exact le_of_lt ‹_›; exact le_refl _]
+theorem le_mx_right (a b : K) : b ≤ mx a b := by unfold mx; split <;> [exact le_refl _; exact not_lt.1 ‹_›]
+
+/-- componentwise `p ≤ q` -/
+def cle (p q : model3d.Coord3D K) : Prop := p.X ≤ q.X ∧ p.Y ≤ q.Y ∧ p.Z ≤ q.Z
+
+theorem box8 (v0 v1 v2 v3 v4 v5 v6 v7 v : model3d.Coord3D K)
+    (h : v = v0 ∨ v = v1 ∨ v = v2 ∨ v = v3 ∨ v = v4 ∨ v = v5 ∨ v = v6 ∨ v = v7) :
+    (mn (mn (mn (mn (mn (mn (mn v0.X v1.X) v2.X) v3.X) v4.X) v5.X) v6.X) v7.X ≤ v.X ∧ mn (mn (mn (mn (mn (mn (mn v0.Y v1.Y) v2.Y) v3.Y) v4.Y) v5.Y) v6.Y) v7.Y ≤ v.Y ∧ mn (mn (mn (mn (mn (mn (mn v0.Z v1.Z) v2.Z) v3.Z) v4.Z) v5.Z) v6.Z) v7.Z ≤ v.Z) ∧
+    (v.X ≤ mx (mx (mx (mx (mx (mx (mx v0.X v1.X) v2.X) v3.X) v4.X) v5.X) v6.X) v7.X ∧ v.Y ≤ mx (mx (mx (mx (mx (mx (mx v0.Y v1.Y) v2.Y) v3.Y) v4.Y) v5.Y) v6.Y) v7.Y ∧ v.Z ≤ mx (mx (mx (mx (mx (mx (mx v0.Z v1.Z) v2.Z) v3.Z) v4.Z) v5.Z) v6.Z) v7.Z) := by
+  rcases h with h | h | h | h | h | h | h | h <;> subst h <;>
+    refine ⟨⟨?_, ?_, ?_⟩, ⟨?_, ?_, ?_⟩⟩ <;>
+    repeat (first
+      | exact mn_le_right _ _
+      | exact mn_le_left _ _
+      | exact le_mx_right _ _
+      | exact le_mx_left _ _
+      | refine le_trans (mn_le_left _ _) ?_
+      | refine le_trans ?_ (le_mx_left _ _))
+
+theorem corner_disj (d : model3d.dcCubeLayout K) (c idx : Int)
+    (h : idx = (model3d.dcCubeLayout_CubeCorners d c).e0 ∨ idx = (model3d.dcCubeLayout_CubeCorners d c).e1 ∨ idx = (model3d.dcCubeLayout_CubeCorners d c).e2 ∨ idx = (model3d.dcCubeLayout_CubeCorners d c).e3 ∨ idx = (model3d.dcCubeLayout_CubeCorners d c).e4 ∨ idx = (model3d.dcCubeLayout_CubeCorners d c).e5 ∨ idx = (model3d.dcCubeLayout_CubeCorners d c).e6 ∨ idx = (model3d.dcCubeLayout_CubeCorners d c).e7) :
+    (model3d.dcCubeLayout_Corner d idx).Coord = (model3d.dcCubeLayout_Corner d (model3d.dcCubeLayout_CubeCorners d c).e0).Coord ∨
+    (model3d.dcCubeLayout_Corner d idx).Coord = (model3d.dcCubeLayout_Corner d (model3d.dcCubeLayout_CubeCorners d c).e1).Coord ∨
+    (model3d.dcCubeLayout_Corner d idx).Coord = (model3d.dcCubeLayout_Corner d (model3d.dcCubeLayout_CubeCorners d c).e2).Coord ∨
+    (model3d.dcCubeLayout_Corner d idx).Coord = (model3d.dcCubeLayout_Corner d (model3d.dcCubeLayout_CubeCorners d c).e3).Coord ∨
+    (model3d.dcCubeLayout_Corner d idx).Coord = (model3d.dcCubeLayout_Corner d (model3d.dcCubeLayout_CubeCorners d c).e4).Coord ∨
+    (model3d.dcCubeLayout_Corner d idx).Coord = (model3d.dcCubeLayout_Corner d (model3d.dcCubeLayout_CubeCorners d c).e5).Coord ∨
+    (model3d.dcCubeLayout_Corner d idx).Coord = (model3d.dcCubeLayout_Corner d (model3d.dcCubeLayout_CubeCorners d c).e6).Coord ∨
+    (model3d.dcCubeLayout_Corner d idx).Coord = (model3d.dcCubeLayout_Corner d (model3d.dcCubeLayout_CubeCorners d c).e7).Coord := by
+  rcases h with h | h | h | h | h | h | h | h
+  · exact Or.inl (by rw [h])
+  · exact Or.inr (Or.inl (by rw [h]))
+  · exact Or.inr (Or.inr (Or.inl (by rw [h])))
+  · exact Or.inr (Or.inr (Or.inr (Or.inl (by rw [h]))))
+  · exact Or.inr (Or.inr (Or.inr (Or.inr (Or.inl (by rw [h])))))
+  · exact Or.inr (Or.inr (Or.inr (Or.inr (Or.inr (Or.inl (by rw [h]))))))
+  · exact Or.inr (Or.inr (Or.inr (Or.inr (Or.inr (Or.inr (Or.inl (by rw [h])))))))
+  · exact Or.inr (Or.inr (Or.inr (Or.inr (Or.inr (Or.inr (Or.inr ((by rw [h]))))))))
+
+theorem cubeMinMax_covers (d : model3d.dcCubeLayout K) (c idx : Int)
+    (hidx : idx ∈ [(model3d.dcCubeLayout_CubeCorners d c).e0, (model3d.dcCubeLayout_CubeCorners d c).e1, (model3d.dcCubeLayout_CubeCorners d c).e2, (model3d.dcCubeLayout_CubeCorners d c).e3, (model3d.dcCubeLayout_CubeCorners d c).e4, (model3d.dcCubeLayout_CubeCorners d c).e5, (model3d.dcCubeLayout_CubeCorners d c).e6, (model3d.dcCubeLayout_CubeCorners d c).e7]) :
+    cle (model3d.dcCubeLayout_CubeMinMax d c).1 (model3d.dcCubeLayout_Corner d idx).Coord ∧
+    cle (model3d.dcCubeLayout_Corner d idx).Coord (model3d.dcCubeLayout_CubeMinMax d c).2 := by
+  simp only [List.mem_cons, List.mem_nil_iff, or_false] at hidx
+  simp only [model3d.dcCubeLayout_CubeMinMax, model3d.Coord3D_Min, model3d.Coord3D_Max, cle]
+  simp only [show ((1 : Int) = 0) = False from by simp,
+    show ((2 : Int) = 0) = False from by simp, show ((3 : Int) = 0) = False from by simp,
+    show ((4 : Int) = 0) = False from by simp, show ((5 : Int) = 0) = False from by simp,
+    show ((6 : Int) = 0) = False from by simp, show ((7 : Int) = 0) = False from by simp,
+    decide_true, decide_false, if_true, Bool.false_eq_true, if_false]
+  exact box8 _ _ _ _ _ _ _ _ _ (corner_disj d c idx hidx)
+end MinMax
 
 end M3d.KernelsTie.DC
